@@ -59,8 +59,12 @@ PROPS = {}
 NOT_APPLICABLE = {
     "C09": "dasp_graph::process is a loop around petgraph's DfsPostOrder over Vec-backed containers: measured, not even "
            "a concrete 5-node traversal (nor a 2-node petgraph::DiGraph) can be symbolically executed by Kani/CBMC within "
-           "600-900 s / 62 GB, and stubbing the traversal is rejected by Kani 0.68 (DESIGN.md §4 C09); solver-based "
-           "checking of the real code cannot reach it here",
+           "600-900 s / 62 GB, and stubbing the traversal is rejected by Kani 0.68 (DESIGN.md §4 C09). A second attempt that "
+           "replaces only the CONTAINER by an array-backed multigraph implementing petgraph's traits (real "
+           "dasp_graph::process, real DfsPostOrder/Reversed; harness/attempts/c09_process.rs) did not leave symbolic "
+           "execution within 16 min even for ONE node: the Vec::push growth paths of DfsPostOrder::stack and "
+           "Processor::inputs sit inside three nested unwound loops (DESIGN.md §9.8). Solver-based checking of the real "
+           "code cannot reach it here",
     "C13": "Bus is hard-wired to Rc<RefCell<..>> + BTreeMap + VecDeque: five fixed calls exceed 600 s under Kani; even "
            "with cfg-swapped array-backed containers three pull-only steps cost > 6 min, attach/pull/drop scripts are "
            "out of reach (DESIGN.md §4 C13)",
